@@ -1300,7 +1300,7 @@ def contracts(reg):
     # mailbox splitter and the .eml body assembly are verified here under C16's contracts (with C16's
     # executor, see EXECUTOR); C16's remaining contracts are only registered, so that calls inside these functions use them
     from contracts import C16
-    shared = ("::_split_mbox_messages", "::_read_eml_format")      # (get_body_content's first-part rule is C16's claim, not C03's: see the
+    shared = ("::_split_mbox_messages", "::_read_eml_format", "::read_mbox_format_mail")      # (get_body_content's first-part rule is C16's claim, not C03's: see the
     #                                                                 recorded finding C03-mbox-later-inline-parts-dropped)
     for c16c in C16.contracts(reg):
         if c16c.target.endswith(shared):
